@@ -32,6 +32,8 @@ type Val struct {
 	Ty   types.Type
 	Addr *Term // address of the struct this value was loaded from (spec lvalues)
 	Glob string // name of the global this pointer designates
+	Ref  *Val   // name of an address-taken local: the pointer to load through, lazily
+	RefTy types.Type
 }
 
 type VC struct {
@@ -847,7 +849,7 @@ func (x *Exec) runBlock(st *State, b *ssa.BasicBlock) {
 			// back edge: re-establish invariant, variant decreases, allocs unchanged
 			x.checkInvariants(st, b, ord, "preserve")
 			x.checkVariant(st, b, ord)
-			if st.allocs != st.lallocs[b] {
+			if st.allocs != st.lallocs[b] && x.c.Allocs >= 0 {
 				x.addVC(st, "allocs", fmt.Sprintf("loop%d/allocs_unchanged", ord), "C18", b.Instrs[0].Pos(), False,
 					fmt.Sprintf("loop body allocates (%d allocation sites on this path)", st.allocs-st.lallocs[b]))
 			}
@@ -1039,7 +1041,8 @@ func (x *Exec) step(st *State, in ssa.Instruction) bool {
 			}
 			v := x.val(st, in.X)
 			if in.IsAddr {
-				v = x.derefVal(st, v, in.X.Type())
+				p := v
+				v = Val{Ref: &p, RefTy: in.X.Type()}
 			}
 			st.names[id.Name] = v
 		}
